@@ -8,6 +8,7 @@ import PsVerif.Lemmas.SqrtOrder
 import PsVerif.Model.NormCalc
 import PsVerif.Props.C04
 import PsVerif.Props.C01
+import PsVerif.Lemmas.Householder
 namespace PsVerif
 open Matrix
 
@@ -129,6 +130,18 @@ ranking of its own basis matrix: the shuffle of the unranked tail (any seed) doe
 theorem sspor_lead_eq_optimizer (σ : List Nat → List Nat) (m : Nat) (r : List Nat) (hm : m ≤ r.length) :
     (tailShuffle σ m r).take m = r.take m :=
   tailShuffle_take σ m r hm
+
+/-- **C03/C04 (L1: the code's Householder step refines the model's Schur step), over ℝ.** For the
+reflector exactly as `qr_reflector` / `GQR.fit` build it (`u = t/‖t‖; u₀ += sign(u₀) + [u₀ = 0];
+u /= √|u₀|`) and the update `R[j:, j:] -= outer(u, u·R[j:, j:])`: the Gram matrix of the trailing block
+without its first row is the Schur complement of the previous Gram matrix with respect to the pivot.
+So the column norms the code computes at the next step are, in exact arithmetic, the square roots of
+the model's residual norms. -/
+theorem householder_step_refines_schur {p q : ℕ} (T : Matrix (Fin (p + 1)) (Fin q) ℝ) (piv : Fin q)
+    (hρ : 0 < colNorm2 T piv) (a b : Fin q) :
+    ∑ i : Fin p, applyReflector T (reflector T piv) i.succ a * applyReflector T (reflector T piv) i.succ b =
+      colDot T a b - colDot T a piv * colDot T piv b / colNorm2 T piv :=
+  householder_refines_schur T piv hρ a b
 
 /-- non-vacuity: a concrete run with a tie-free trace -/
 example : qrModel #[#[1, 0], #[0, 2], #[3, 1]] = [2, 1, 0] := by decide +kernel
